@@ -128,18 +128,37 @@ func nodeCloseWaits(c *Ctx, rule string) {
 	p := c.P
 	cl := p.MustMethod(pkgConsensus, "RaftNode", "Close")
 	n := 0
-	for _, fn := range p.ModFuncs {
-		if !p.Production(fn) {
-			continue
+	// check the wait argument at every production call site; a caller that merely passes its own
+	// parameter on (a forwarder, a wrapper taking the flag) is judged at its own call sites
+	var visit func(target *ssa.Function, argIdx int, depth int)
+	seen := map[*ssa.Function]bool{}
+	visit = func(target *ssa.Function, argIdx int, depth int) {
+		if seen[target] || depth > 3 {
+			return
 		}
-		fn := fn
-		for _, call := range callsIn(fn, func(k *ssa.CallCommon) bool { return k.StaticCallee() == cl }) {
-			n++
-			arg := p.TermOf(callCommon(call).Args[1])
-			ok := arg.Op == "const" && arg.Name == "true"
-			c.Check(ok, rule, funcName(fn)+":close-waits", call.Pos(), "RaftNode.Close(true): waits for raft's shutdown before closing what the FSM uses", "the node is closed with wait="+arg.String()+": the raft log, the balloon and the store are closed while the FSM goroutine may still apply committed entries (nil balloon / closed database under a running Apply)")
+		seen[target] = true
+		for _, fn := range p.ModFuncs {
+			if !p.Production(fn) {
+				continue
+			}
+			fn := fn
+			for _, call := range callsIn(fn, func(k *ssa.CallCommon) bool { return k.StaticCallee() == target }) {
+				args := callCommon(call).Args
+				if argIdx >= len(args) {
+					continue
+				}
+				arg := p.TermOf(args[argIdx])
+				if par, isPar := args[argIdx].(*ssa.Parameter); isPar && par.Parent() == fn {
+					visit(fn, paramIndex(par), depth+1)
+					continue
+				}
+				n++
+				ok := arg.Op == "const" && arg.Name == "true"
+				c.Check(ok, rule, funcName(fn)+":close-waits", call.Pos(), "RaftNode.Close(true): waits for raft's shutdown before closing what the FSM uses", "the node is closed with wait="+arg.String()+": the raft log, the balloon and the store are closed while the FSM goroutine may still apply committed entries (nil balloon / closed database under a running Apply)")
+			}
 		}
 	}
+	visit(cl, 1, 0)
 	if n == 0 {
 		c.Fail(rule, "close-waits", cl.Pos(), "no production caller of RaftNode.Close found")
 	}
